@@ -532,3 +532,11 @@ package collection
 //@   loop 2 iteration-ensures [entry-offered-as-it-is-and-goes-on-only-after-a-yes] calls(f) == 1 && ret(f) && arg(f, 0) == k && arg(f, 1) == v
 //@   ensures [walk-under-the-read-lock] calls(on("lock", m.lock)) == 1 && calls(on("unlock", m.lock)) == 1
 //@   modifies nothing
+
+// emptyLru (a cache without a limit): neither adds nor evicts anything.
+//@ func (emptyLru).add
+//@   prop C17
+//@   modifies nothing
+//@ func (emptyLru).remove
+//@   prop C17
+//@   modifies nothing
